@@ -33,7 +33,7 @@ META = {
         'upper() is not a table; C03.MEMO-DATA - no per-object memo cache stores a value computed from table data '
         '(append changes data; a stale memo makes object and file diverge). NOT decided: that re-parsing _contents '
         'yields original-followed-by-appended rows (parser behaviour, C01/C02), raw-mode equality, byte-level content.'),
-    'floors': {'C03.W-GUARD': 1, 'C03.A-GUARD': 1, 'C03.MODES': 3, 'C03.REFUSAL-PURE': 6, 'C03.COHERENT': 5,
+    'floors': {'C03.ROW-SOURCE': 2, 'C03.W-GUARD': 1, 'C03.A-GUARD': 1, 'C03.MODES': 3, 'C03.REFUSAL-PURE': 6, 'C03.COHERENT': 5,
                'C03.ROW-SIBLING': 1, 'C03.CASEKEY': 2, 'C03.MEMO-DATA': 3, 'C03.EMPTY-APPEND': 1},
 }
 
@@ -348,6 +348,37 @@ def check_row_sibling(ctx, fa_w, fa_a):
               construct='append row loop: ' + src(la)[:200])
 
 
+def cell_roots(loop, colvar, rowvar):
+    """Root names of every cell read X[..][colvar][rowvar] in a row-rendering loop."""
+    out = []
+    for n in walk_local(loop):
+        if isinstance(n, ast.Subscript) and isinstance(n.slice, ast.Name) and n.slice.id == rowvar and isinstance(n.value, ast.Subscript) \
+                and isinstance(n.value.slice, ast.Name) and n.value.slice.id == colvar and isinstance(n.value.value, ast.Subscript):
+            r = n.value.value
+            while isinstance(r, ast.Subscript):
+                r = r.value
+            out.append((n, src(r)))
+    return out
+
+
+def check_row_source(ctx, fa_w, fa_a):
+    """C03.ROW-SOURCE: every cell of an appended row is read from the data that is being appended (the datatable argument); every cell
+    of a written row from the object."""
+    lw, rw = row_loop(fa_w)
+    la, ra = row_loop(fa_a)
+    ctx.need(lw is not None and la is not None, 'row-rendering loops of write/append not found')
+    dt = fa_a.func.params[1] if len(fa_a.func.params) > 1 else 'datatable'
+    for fa, lp, rv, want in ((fa_a, la, ra, dt), (fa_w, lw, rw, 'self')):
+        cells = cell_roots(lp, lp.target.id, rv.target.id)
+        ctx.need(cells, '%s: no cell reads in the row loop' % fa.func.qualname)
+        bad = [(n, r) for n, r in cells if r != want]
+        ctx.check('C03.ROW-SOURCE', not bad, fa.func, bad[0][0] if bad else lp,
+                  '%s: all %d cell reads of a row come from `%s`' % (fa.func.name, len(cells), want),
+                  msg='%s renders a row with a cell read from `%s` (`%s`) instead of `%s`: the row written to the file is not the row that was handed in'
+                      % (fa.func.name, bad[0][1] if bad else '', src(bad[0][0])[:50] if bad else '', want),
+                  construct='%s row cell from %s' % (fa.func.name, bad[0][1] if bad else ''))
+
+
 def check_casekey(ctx, fa):
     f = fa.func
     dt = fa.func.params[1] if len(fa.func.params) > 1 else 'datatable'
@@ -451,6 +482,7 @@ def run(ctx):
     check_coherent(ctx, fa_w, yc, 'write')
     check_coherent(ctx, fa_a, yc, 'append')
     check_row_sibling(ctx, fa_w, fa_a)
+    check_row_source(ctx, fa_w, fa_a)
     check_casekey(ctx, fa_a)
     check_empty_append(ctx, fa_a, yc)
     check_memo_data(ctx, repo, yc)
